@@ -178,7 +178,7 @@ func runCrashHistory(rep *vevid.Report, h chistory) {
 	}()
 	db, err := index.NewMetricMetaDatabase("db", dir)
 	if err != nil {
-		vevid.Fatal("new meta db: %v", err)
+		vevid.OpFailed("new meta db: %v", err)
 	}
 	crec = vcrashfs.NewRecorder(dir)
 	crec.Skip = func(rel string) bool { return strings.HasSuffix(rel, "LOCK") }
